@@ -1,4 +1,5 @@
 import Goyang.Lemmas.Types
+import Goyang.Lemmas.TypesFuel
 /-
 C09 — type names bind lexically and derived types inherit the whole chain.
 
@@ -376,6 +377,27 @@ theorem resolve_members (env : Env) (fuel : Nat) (root : Mod) (scope : List Stmt
     ∃ kind chain, DerivesFrom env.reg root scope t kind chain ∧ MembersOf env y chain := by
   obtain ⟨kind, chain, hd, _, hm⟩ := resolve_chain env fuel root scope t stack y ht h
   exact ⟨kind, chain, hd, hm⟩
+
+/-- **The recursion budget suffices.**  With the fuel `Env.of` supplies (two more than the number of
+`type` statements loaded; one more than the number of loaded modules for the walk over a module
+and its submodules), resolving a type statement that stands in the loaded set — `root` is a
+loaded module, `t` a `type` statement of it, `scope` statements of it — never reports an exhausted
+budget: the fuel arguments of the model do not cut any run short, every run ends because a
+built-in type, an error or a type already in progress (a cycle) is reached. -/
+theorem fuel_suffices (reg : Registry) (root : Mod) (scope : List Stmt) (t : Stmt)
+    (hroot : root ∈ reg.mods) (ht : t ∈ descendants root.stmt) (hkw : t.kw = "type")
+    (hscope : ∀ s ∈ scope, s ∈ descendants root.stmt) :
+    ∀ e ∈ (resolveType reg root scope t).2, e.cls ≠ "out-of-fuel" := by
+  have hreg : (Env.of reg).reg = reg := rfl
+  have hfuel : (Env.of reg).fuel = (allTypeKeys reg).length + 2 := rfl
+  unfold resolveType resolveTypeE
+  simp only
+  apply Goyang.Lemmas.TypesFuel.resolve_noOof (Env.of reg) (Env.of reg).fuel root scope t []
+  · exact ⟨by rw [hreg]; exact hroot, ht, hscope⟩
+  · exact hkw
+  · exact List.nodup_nil
+  · intro k hk; cases hk
+  · rw [hreg, hfuel]; simp
 
 /-! ## Non-vacuity: concrete schemas on which the hypotheses of the theorems hold
 
